@@ -574,6 +574,292 @@ def h6_fill_idempotent_zero_component(chk, rng, tier):
                           "accepted and filled (the zero column is omitted), filling the result again raises %s: %s" % (system, zkey, type(e).__name__, str(e)[:80]), dict(table=t))
 
 
+
+# ---------------------------------------------------------------------------------------------------------------------
+# H7: iteration order of sets (the only place where the interpreter's hash seed can reach a value the code computes with)
+class OrderSet:
+    """Stand-in for the builtin `set` inside the analysed modules: same contents, but every iteration walks the elements in an order
+    chosen by fresh finite-domain symbolic integers (a Lehmer code), so that the forking executor explores -- and z3 prunes -- every
+    order a hash seed could produce."""
+    runs = [0]
+
+    def __init__(self, it=()):
+        self._items = list(dict.fromkeys(it))
+
+    def __iter__(self):
+        ctx = S.current()
+        k = OrderSet.runs[0]
+        OrderSet.runs[0] += 1
+        items = list(self._items)
+        out = []
+        pos = 0
+        while len(items) > 1:
+            v = ctx.var("ord%d_%d_of%d" % (k, pos, len(items)), domain=range(len(items)))
+            out.append(items.pop(int(v)))
+            pos += 1
+        out.extend(items)
+        return iter(out)
+
+    def __contains__(self, x):
+        return x in self._items
+
+    def __len__(self):
+        return len(self._items)
+
+    def add(self, x):
+        if x not in self._items:
+            self._items.append(x)
+
+    def __or__(self, o):
+        return OrderSet(list(self._items) + list(o))
+
+    __ror__ = __or__
+
+    def __and__(self, o):
+        return OrderSet([x for x in self._items if x in o])
+
+    def __sub__(self, o):
+        return OrderSet([x for x in self._items if x not in o])
+
+    def __eq__(self, o):
+        return len(self) == len(o) and all(x in o for x in self._items)
+
+    def __repr__(self):
+        return "OrderSet(%r)" % (self._items,)
+
+
+def set_iteration_sites():
+    """(module, function, line) of every `set(...)` / set display / set comprehension in the modules the property is anchored in, from the
+    current source (reported with the evidence: these are the places H7 is about)."""
+    import ast
+    import cij
+    root = os.path.dirname(cij.__file__)
+    sites = []
+    for rel in ("core/calculator.py", "core/tasks.py", "core/full_modulus.py", "io/config/config.py", "io/output/results_writer.py",
+                "util/fill.py", "util/units.py"):
+        fn = os.path.join(root, rel)
+        try:
+            tree = ast.parse(open(fn).read())
+        except (OSError, SyntaxError):
+            continue
+        for node in ast.walk(tree):
+            if isinstance(node, (ast.FunctionDef, ast.AsyncFunctionDef)):
+                for sub in ast.walk(node):
+                    if (isinstance(sub, ast.Call) and isinstance(sub.func, ast.Name) and sub.func.id in ("set", "frozenset")) \
+                            or isinstance(sub, (ast.Set, ast.SetComp)):
+                        sites.append("%s:%s:%d" % (rel, node.name, sub.lineno))
+    return sorted(set(sites))
+
+
+def _dict_same(a, b):
+    if isinstance(a, dict) != isinstance(b, dict):
+        return False
+    if isinstance(a, dict):
+        return set(a) == set(b) and all(_dict_same(a[k], b[k]) for k in a)
+    if isinstance(a, Sym) or isinstance(b, Sym):
+        return Sym.of(a).same(Sym.of(b))
+    return type(a) is type(b) and a == b
+
+
+def _ref_merge(user, default):
+    out = {}
+    for k in list(default) + [k for k in user if k not in default]:
+        if k in user and k in default and isinstance(user[k], dict) and isinstance(default[k], dict):
+            out[k] = _ref_merge(user[k], default[k])
+        elif k in user:
+            out[k] = user[k]
+        else:
+            out[k] = default[k]
+    return out
+
+
+def h7_set_order(chk, rng, tier):
+    import cij.io.config.config as cfgmod
+    import cij.core.calculator as cc
+    sites = set_iteration_sites()
+    chk.note("set constructions in the anchored modules (current source): " + (", ".join(sites) if sites else "none"))
+    # ---- (a) update_config: every iteration order of the merged key set, two nesting levels -------------------------------------
+    ctx = new_context()
+    ctx.concretise_enabled = True
+    u = [ctx.var("u%d" % i) for i in range(8)]
+    d = [ctx.var("d%d" % i) for i in range(8)]
+    skeletons = [
+        ("flat", {"a": u[0], "b": u[1]}, {"b": d[0], "c": d[1], "d": d[2]}),
+        ("nested", {"qha": {"settings": {"NT": u[0], "DT": u[1]}, "input": u[2]}, "elast": u[3]},
+                   {"qha": {"settings": {"NT": d[0], "T_MIN": d[1]}, "input": d[2]}, "elast": {"settings": d[3]}, "output": {"pressure_base": d[4]}}),
+        ("dict-over-leaf", {"x": {"p": u[0]}, "y": u[1], "z": {"q": u[2]}}, {"x": d[0], "y": {"p": d[1]}, "z": {"q": d[3], "r": d[4]}}),
+    ]
+    if tier == "thorough":
+        skeletons.append(("wide", {"k%d" % i: u[i] for i in range(0, 5)}, {"k%d" % i: d[i] for i in range(2, 7)}))
+    for name, user, default in skeletons:
+        t0 = time.time()
+        expect = _ref_merge(user, default)
+
+        def fn(user=user, default=default):
+            OrderSet.runs[0] = 0
+            with patched((cfgmod, {"set": OrderSet})):
+                return cfgmod.update_config(user, default)
+        ex = X.Explorer(max_paths=6000, name="C14:H7:update_config:" + name, decision_timeout_ms=4000)
+        try:
+            paths = ex.run(fn)
+        except X.PathBudgetExceeded as e:
+            chk.inconclusive("H7 update_config " + name, str(e))
+            continue
+        bad = None
+        for p in paths:
+            if p.feasibility_unknown:
+                chk.inconclusive("H7 update_config " + name, "a branch feasibility query returned unknown")
+            if p.exception is not None:
+                bad = "raises %s: %s" % (type(p.exception).__name__, p.exception)
+                break
+            if not _dict_same(p.result, expect):
+                bad = "the merged configuration differs from 'user settings over defaults' for one iteration order of the key set"
+                break
+        chk.obligation("H7 update_config [%s]: the merged configuration is the same dictionary for every iteration order of the key sets "
+                       "(%d orders explored, %d set iterations per run at most)" % (name, len(paths), OrderSet.runs[0]),
+                       "unsat" if bad is None else "sat", seconds=round(time.time() - t0, 2), kind="order-independence",
+                       logic="QF_LRA(finite domain)", detail=dict(solver_calls=ex.solver_calls, what=bad))
+        if name == "nested":
+            chk.witness("H7 update_config explores more than one order", "sat" if len(paths) > 1 or not any("update_config" in s_ for s_ in sites) else "unsat")
+        if bad is not None:
+            replay_h7_config(chk, cfgmod, bad)
+    # ---- (b) the stiffness matrix handed to the inverse in Calculator._calculate_compliances ------------------------------------------
+    keysets = [("orthotropic-9", 2, 1), ("monoclinic-13", 1, 1)] + ([("trigonal-7+", 1, 1)] if tier == "thorough" else [])
+    for ks, nt, nv in keysets:
+        t0 = time.time()
+        ctx = new_context()
+        ctx.concretise_enabled = True
+        proxy = NumpyProxy()
+        proxy.close_mode = "structural"
+        seen = []
+        real_inv = proxy.linalg.inv
+
+        class _L:
+            def __getattr__(self, n):
+                return getattr(proxy.linalg, n)
+
+            def inv(self, a):
+                seen.append(numpy.array(a, dtype=object, copy=True))
+                return real_inv(a)
+        calc, C, _ = C7.build_calculator(cc, ctx, C7.KEYSETS[ks], nt, nv, prefix="C")
+
+        def fn():
+            OrderSet.runs[0] = 0
+            del seen[:]
+            saved = proxy.linalg
+            proxy.linalg = _L()
+            try:
+                with patched((cc, {"numpy": proxy, "set": OrderSet})):
+                    calc.__dict__.pop("_compliances", None)
+                    calc._calculate_compliances()
+            finally:
+                proxy.linalg = saved
+            return [m.copy() for m in seen]
+        ex = X.Explorer(max_paths=20000, name="C14:H7:compliances:" + ks, decision_timeout_ms=4000)
+        try:
+            paths = ex.run(fn)
+        except X.PathBudgetExceeded as e:
+            chk.inconclusive("H7 compliances " + ks, str(e))
+            continue
+        expect = numpy.zeros((nt, nv, 6, 6), dtype=object)
+        for k, v in C.items():
+            i, j = int(k[1]), int(k[2])
+            expect[:, :, i - 1, j - 1] = v
+            expect[:, :, j - 1, i - 1] = v
+        bad = None
+        for p in paths:
+            if p.exception is not None:
+                bad = "raises %s: %s" % (type(p.exception).__name__, p.exception)
+                break
+            if len(p.result) != 1 or p.result[0].shape != expect.shape or not all(
+                    Sym.of(x).same(Sym.of(y)) for x, y in zip(p.result[0].ravel().tolist(), expect.ravel().tolist())):
+                bad = "the 6x6 stiffness matrix handed to the inverse is not the symmetric matrix of the supplied components for one iteration order"
+                break
+        if ks == "orthotropic-9":
+            chk.witness("H7 compliances explores more than one order", "sat" if len(paths) > 1 or not any("_calculate_compliances" in s_ for s_ in sites) else "unsat")
+        chk.obligation("H7 compliances [%s]: the stiffness matrix that is inverted is the symmetric matrix of the components for every "
+                       "iteration order of the index-pair sets (%d orders explored)" % (ks, len(paths)),
+                       "unsat" if bad is None else "sat", seconds=round(time.time() - t0, 2), kind="order-independence",
+                       logic="QF_LRA(finite domain)", detail=dict(solver_calls=ex.solver_calls, what=bad))
+        if bad is not None:
+            replay_h7_compliances(chk, cc, ks, bad)
+
+
+def replay_h7_compliances(chk, cc, ks, what):
+    """Concrete: the real _calculate_compliances on a concrete stand-in, builtin set replaced by lists iterating in every order."""
+    import itertools as it
+    from cij.util import c_
+    keys = C7.KEYSETS[ks]
+    A = numpy.zeros((6, 6))
+    for n, k in enumerate(keys):
+        i, j = int(k[1]) - 1, int(k[2]) - 1
+        A[i, j] = A[j, i] = (0.03 + 0.002 * n) if i == j else 0.004 + 0.0005 * n
+    want = numpy.linalg.inv(A)
+    for perm_seed in range(2):
+        class PSet(list):
+            def __init__(self, itb=()):
+                items = list(dict.fromkeys(itb))
+                perms = list(it.permutations(items))
+                list.__init__(self, perms[perm_seed % len(perms)])
+        calc = object.__new__(cc.Calculator)
+        q = PC.Obj()
+        q.t_array = numpy.array([0.0, 300.0])
+        q.v_array = numpy.array([400.0])
+        q.volume_base = PC.Obj()
+        q.volume_base.v_array, q.volume_base.t_array = q.v_array, q.t_array
+        calc.__dict__["qha_calculator"] = q
+        calc.__dict__["modulus_adiabatic"] = {c_(k[1:]): A[int(k[1]) - 1, int(k[2]) - 1] * numpy.ones((2, 1)) for k in keys}
+        calc.__dict__["modulus_isothermal"] = calc.__dict__["modulus_adiabatic"]
+        ed = PC.Obj()
+        vol0 = PC.Obj()
+        vol0.static_elastic_modulus = {c_(k[1:]): None for k in keys}
+        ed.volumes = [vol0]
+        ed.cellmass = 100.0
+        calc.__dict__["elast_data"] = ed
+        with patched((cc, {"set": PSet})):
+            try:
+                calc._calculate_compliances()
+                got = numpy.zeros((6, 6))
+                for k, v in calc._compliances.items():
+                    i, j = k.voigt
+                    got[i - 1, j - 1] = got[j - 1, i - 1] = v[1, 0]
+                err = None
+            except Exception as e:
+                err = "raises %s: %s" % (type(e).__name__, e)
+        if err is not None or not numpy.allclose(got, want, rtol=1e-9, atol=1e-9):
+            chk.violation("set-order:compliances", "Calculator._calculate_compliances depends on the iteration order of its index-pair sets "
+                          "(selected by the interpreter's hash seed): with order #%d the compliances are not the inverse of the symmetric "
+                          "stiffness matrix (%s) [%s]" % (perm_seed, err or "largest deviation %.3g" % numpy.abs(got - want).max(), what),
+                          dict(keys=keys, order=perm_seed))
+            return
+    chk.harness_error("H7 compliances: symbolic run reports '%s' but no concrete iteration order reproduces it" % what)
+
+
+def replay_h7_config(chk, cfgmod, what):
+    """Concrete: the real update_config with the builtin set replaced by sets that iterate in every order (no symbols)."""
+    import itertools as it
+    user = {"qha": {"settings": {"NT": 11, "DT": 5.0}, "input": "u.txt"}, "elast": "e.txt", "x": {"p": 1}}
+    default = {"qha": {"settings": {"NT": 16, "T_MIN": 0}, "input": "d.txt"}, "elast": {"settings": 1}, "output": {"pressure_base": ["cij"]}, "x": 3}
+    expect = _ref_merge(user, default)
+    for perm_seed in range(24):
+        class PSet(list):
+            def __init__(self, itb=()):
+                items = list(dict.fromkeys(itb))
+                perms = list(it.permutations(items))
+                list.__init__(self, perms[perm_seed % len(perms)])
+        with patched((cfgmod, {"set": PSet})):
+            try:
+                got = cfgmod.update_config(user, default)
+            except Exception as e:
+                got = "raises %s: %s" % (type(e).__name__, e)
+        if got != expect:
+            chk.violation("set-order:update_config", "update_config(user, default) depends on the iteration order of its key set (the order the "
+                          "interpreter's hash seed selects): with order #%d it returns %r instead of %r [%s]" % (perm_seed, got, expect, what),
+                          dict(user=user, default=default, order=perm_seed))
+            return
+    chk.harness_error("H7 update_config: symbolic run reports '%s' but no concrete iteration order reproduces it" % what)
+
+
 def main():
     tier = os.environ.get("VERIF_TIER", "quick")
     if len(sys.argv) > 1:
@@ -590,6 +876,7 @@ def main():
     h6_fill_idempotent(chk, rng, tier)
     h6_fill_idempotent_accepted(chk, rng, tier)
     h6_fill_idempotent_zero_component(chk, rng, tier)
+    h7_set_order(chk, rng, tier)
     chk.witness("histories executed", "sat" if len(chk.obligations) >= 5 else "unsat")
     chk.bound(histories="2-3 reads per quantity, 3 access orders, 3 write_output calls, 2 calculators, fill applied twice",
               shapes="nq=2, np=3, nT=2, nV=1-2; 10 stiffness components; 2-7 crystal systems")
